@@ -38,7 +38,7 @@ from vlib import strat as S
 PROPERTY = "C28"
 LEVEL = "exploration"
 RULE = ("Generated correlated-field configurations: 1-2 sub-spaces, each a 1-2-D regular grid (sizes 2-12, per-axis "
-        "distances log-uniform in [0.01, 100], equal / commensurate / independent) or a HEALPix sphere (agree only), "
+        "distances log-uniform in [0.01, 100] and occasionally 3e-7 .. 2.5e5, equal / commensurate / independent) or a HEALPix sphere (agree only), "
         "non-parametric (flexibility / asperity on or off, power and amplitude kind) or Matern amplitudes, both Hartley "
         "conventions, log-normal zero mode (classic also scalar / None), dyadic latent values.  Oracles: (agree) the "
         "differential pair nifty.cl CorrelatedFieldMaker / nifty.re CorrelatedFieldMaker / SimpleCorrelatedField with "
@@ -702,7 +702,12 @@ def _scale_re(rec):
 
 # ------------------------------------------------------------------ strategies
 LAT = S.dyadic(-2.0, 2.0, 8)
-LDIST = st.integers(-16, 16).map(lambda j: float(10.0 ** (j / 8.0)))
+# pixel sizes: mostly 10^(j/8) in [0.01, 100]; sometimes the units of real applications (arcseconds in radians, metres
+# per parsec ...), where absolute tolerances hidden in the code would show
+LDIST = st.one_of(st.integers(-16, 16).map(lambda j: float(10.0 ** (j / 8.0))),
+                  st.integers(-16, 16).map(lambda j: float(10.0 ** (j / 8.0))),
+                  st.integers(-16, 16).map(lambda j: float(10.0 ** (j / 8.0))),
+                  st.sampled_from([4.8e-6, 1e-5, 3e-7, 1e4, 2.5e5]))
 SEED = st.integers(0, 2 ** 31 - 1)
 
 
@@ -747,7 +752,9 @@ def _grid(draw, budget, allow_hp, menu=None):
     elif how == "commensurate":
         d1 = d0 * draw(st.sampled_from([0.5, 2.0] if M else [0.5, 2.0, 0.75, 3.0, 1.5]))
     else:
-        d1 = draw(LDIST)
+        # independent pixel sizes, but of the same unit system: aspect ratios beyond ~1e4 lose the short axis in
+        # sqrt(kx^2+ky^2) altogether (numerically degenerate grid, not a property of the model)
+        d1 = d0 * draw(st.integers(-16, 16).map(lambda j: float(10.0 ** (j / 8.0))))
     return {"t": "rg", "shape": [a, b], "dist": [d0, d1]}
 
 
